@@ -71,7 +71,7 @@ func notYetEscaped(fn *ssa.Function, escapes []ssa.Instruction, cur ssa.Instruct
 
 // readOnlyLib: library functions that only read the bytes of their slice arguments and keep no reference.
 func readOnlyLib(full string) bool {
-	for _, p := range []string{"bytes.Equal", "bytes.Compare", "bytes.HasPrefix", "bytes.HasSuffix", "bytes.IndexByte", "bytes.Contains",
+	for _, p := range []string{"bytes.Equal", "bytes.Compare", "bytes.HasPrefix", "bytes.HasSuffix", "bytes.IndexByte", "bytes.Contains", "strings.IndexByte", "strings.LastIndexByte",
 		"(encoding/binary.littleEndian).Uint", "(encoding/binary.bigEndian).Uint", "(encoding/binary.littleEndian).PutUint", "(encoding/binary.bigEndian).PutUint",
 		"encoding/hex.EncodeToString", "crypto/sha256.Sum256", "hash/crc32.Checksum"} {
 		if strings.HasPrefix(full, p) {
